@@ -238,6 +238,10 @@ pub fn amp() -> usize {
     *AMP.get_or_init(|| std::env::var("NV_C20_AMP").ok().and_then(|s| s.parse().ok()).unwrap_or(BITCODE_AMP))
 }
 
+/// Largest single request the counting allocator can still serve from a no-reserve mapping; a
+/// decoder that would ask for more is not executed (a failed allocation aborts the process).
+pub const MAPPABLE: u128 = 1 << 44;
+
 /// Largest number of output elements an oracle is willing to let a decoder actually produce.
 pub const WORK_CAP: u64 = 1 << 20;
 
@@ -265,6 +269,14 @@ pub fn rle_value(enc: &tensor_compress::RleEncoded<i64>, input_len: usize, obs: 
         obs.label("rle:expansion-above-work-cap-not-executed");
         return Ok(());
     }
+    let total: u128 = enc.run_lengths.iter().map(|r| u128::from(*r)).sum();
+    if total * 8 > MAPPABLE {
+        // the reservation could not be served at all (the process would abort): not executed
+        return fail(
+            "alloc:rle_decode",
+            format!("not executed: rle_decode would reserve {} bytes for {paired} elements (run lengths without a value are counted)", total * 8),
+        );
+    }
     let (dec, a) = guarded("rle_decode", || rle_decode(enc))?;
     // the output legitimately needs 8 bytes per produced element
     let bound = 16 * paired as usize + amp() * input_len + BITCODE_SLACK;
@@ -291,6 +303,9 @@ use tensor_compress::format::{CompressedSnapshot, CompressedValue};
 enum Plan {
     Run { bound: usize, why: &'static str },
     Skip(&'static str),
+    /// the decoder would request more than any allocator can serve (process abort): reported
+    /// under the given allocation signature without being executed
+    Abort(&'static str, u128),
 }
 
 fn plan_value(v: &CompressedValue) -> Plan {
@@ -302,6 +317,10 @@ fn plan_value(v: &CompressedValue) -> Plan {
             let declared = tensor_store::SPARSE_MAX_DIMENSION;
             if *dimension > (WORK_CAP as usize) && *dimension <= declared {
                 return Plan::Skip("csnap:sparse-dimension-above-work-cap-not-executed");
+            }
+            let bytes = (*dimension as u128) * 4;
+            if bytes > MAPPABLE && bytes <= isize::MAX as u128 {
+                return Plan::Abort("alloc:decompress_vector:sparse", bytes);
             }
             let dim = (*dimension).min(declared);
             Plan::Run {
@@ -323,7 +342,7 @@ fn plan_value(v: &CompressedValue) -> Plan {
                     }
                     Plan::Run { bound: 8 * p + 8 * core_elems + 8 * maxr * maxr + 65536, why: "output + cores + one slice" }
                 },
-                // a product that overflows or exceeds isize makes `vec![0.0; n]` fail fast
+                // overflow: a checked build panics in the multiplication, an optimised one wraps
                 None => Plan::Run { bound: 65536, why: "shape product overflows" },
                 Some(_) => Plan::Skip("csnap:tt-product-above-work-cap-not-executed"),
             }
@@ -355,7 +374,8 @@ pub fn csnap(data: &[u8], obs: &mut Obs) -> ORes {
                 Plan::Skip("rle") => {
                     if let CompressedValue::RleInt(enc) = v {
                         let paired: u64 = enc.values.iter().zip(&enc.run_lengths).map(|(_, r)| u64::from(*r)).sum();
-                        if paired > WORK_CAP {
+                        let total: u128 = enc.run_lengths.iter().map(|r| u128::from(*r)).sum();
+                        if paired > WORK_CAP || total * 8 > MAPPABLE {
                             all_runnable = false;
                         }
                         rle_value(enc, n, obs)?;
@@ -370,6 +390,9 @@ pub fn csnap(data: &[u8], obs: &mut Obs) -> ORes {
                 Plan::Skip(l) => {
                     obs.label(l);
                     all_runnable = false;
+                },
+                Plan::Abort(sig, bytes) => {
+                    return fail(sig, format!("not executed: field {fname}: decompress_vector would request {bytes} bytes (dimension field above MAX_DIMENSION)"));
                 },
                 Plan::Run { bound, why } => {
                     let site = match v {
